@@ -296,33 +296,3 @@ fn u16_2_flags_accessors() {
         }
     }
 }
-
-// The internal-locator walk of parse_jpeg_content: whatever mip count the header arithmetic yields (it is header
-// controlled: floor(log2(max(w, h)))), the walk never indexes past the 16-slot offset/size tables, every slot goes
-// through the bounds-checked slice, and the images come back in level order.
-// @harness unit=U05.9 props=C05,C16 kind=bounded bound="file of 4 bytes; every offset/size table, every mip count (usize), mipmap flag" timeout=900 target="parser/jpeg.rs: parse_jpeg_content internal mipmap walk (E11 block)" oracle=blp_mips
-#[kani::proof]
-#[kani::unwind(18)]
-#[kani::stub(alloc::fmt::format, stub_format)]
-fn u05_9_jpeg_internal_walk_total() {
-    let file: [u8; 4] = kani::any();
-    let offsets: [u32; 16] = kani::any();
-    let sizes: [u32; 16] = kani::any();
-    let has_mipmaps: bool = kani::any();
-    let count: usize = kani::any();
-    kani::assume(count < usize::MAX);
-    let mut images: Vec<Vec<u8>> = Vec::with_capacity(16);
-    match blk_jpeg_internal_walk(offsets, sizes, &file[..], has_mipmaps, count, &mut images) {
-        Ok(()) => {
-            let want = if has_mipmaps { if count + 1 < 16 { count + 1 } else { 16 } } else { 1 };
-            let want = if want == 0 { 1 } else { want };
-            assert!(images.len() == want, "one image per mip level, at most the 16 table slots");
-            let i: usize = kani::any();
-            kani::assume(i < images.len());
-            assert!(images[i].len() == sizes[i] as usize, "image i has the size of slot i");
-            assert!(offsets[i] as usize + sizes[i] as usize <= 4, "slot i lies inside the file");
-        }
-        Err(e) => core::mem::forget(e),
-    }
-    core::mem::forget(images);
-}
